@@ -294,7 +294,10 @@ func runCtrlScenario(t *testing.T, tr *tracer, idx int, seed uint64, mode string
 				n := atomic.AddUint64(&w.hookN, 1)
 				h := n*0xD6E8FEB86659FD93 ^ uint64(len(site))
 				h ^= h >> 31
-				if h%2 == 0 {
+				switch {
+				case h%16 == 0:
+					time.Sleep(time.Duration(1+h%5000) * time.Microsecond)
+				case h%2 == 0:
 					time.Sleep(time.Duration(1+h%400) * time.Microsecond)
 				}
 			}
